@@ -30,16 +30,27 @@ Inductive rmake :=
 | RNew (me : N) (peers : list N) (selective : bool)          (* GossipRouter::new; address = index *)
 | RCfg (rid npeers : N) (selective partitioned enabled : bool). (* GossipRouter::from_config *)
 
+(* update_peer / remove_peer calls made on the router after its construction *)
+Inductive pop := PUpd (id addr : N) | PDel (id : N).
+(* what is done to the GossipState: advance_epoch, queue_deltas, queue_deltas_broadcast,
+   queue_heartbeat, drain_outbound, set_router (with the case's router) *)
+Inductive qev :=
+| QAdv | QD (b : list (list N * (N * N))) | QB (b : list (list N * (N * N))) | QH | QDrain | QSet.
+
 Record rcase := RC {
   rc_make : rmake;
+  rc_pops : list pop;
   rc_deltas : list (list N * (N * N));
   rc_peers : list (N * N);                 (* peer_addresses sorted by id: (id, address index) *)
   rc_selective : bool;                     (* is_selective() *)
   rc_table : list (N * list (N * N));      (* route_deltas: sorted by target, (tag, origin) of the deltas in order *)
-  rc_batches : list (list (list N * (N * N)));   (* queue_deltas calls, advance_epoch before each *)
+  rc_router0 : bool;                       (* GossipState::with_router (true) or ::new (false) *)
+  rc_epoch0 : N;                           (* epoch field at the start *)
+  rc_script : list qev;
   rc_queue : list (option N * (N * (N * (N * (list (N * N) * N))))) }.
-    (* outbound queue: (target, (kind 0=DeltaBatch 1=TargetedDelta, src, tgt, (tag, origin) list, epoch)),
-       the targeted messages of one call sorted by target *)
+    (* everything drained, then the final outbound queue, in order:
+       (target, (kind 0=DeltaBatch 1=TargetedDelta 2=Heartbeat, src, tgt, (tag, origin) list, epoch)),
+       the targeted messages of one queue_deltas call sorted by target *)
 
 (* large queue_deltas batches, described by a rule instead of being listed: update j of a
    call (0 <= j < size) is on key [keys[j mod |keys|]], has payload tag [base + j] (base =
@@ -50,9 +61,11 @@ Record bigcase := BG {
   bg_keys : list string;
   bg_origins : list N;
   bg_sizes : list N;                        (* one queue_deltas call each, advance_epoch before *)
+  bg_pre : N;                               (* heartbeats already queued (epoch 0), <= 10000 *)
+  bg_hb : N;                                (* observed: heartbeats at the front of the final queue *)
   bg_queue : list (option N * (N * (N * (N * (N * (N * (N * N))))))) }.
     (* (target, (kind, (src, (tgt, (epoch, (number of deltas, (sum of tags, sum of (position+1)*tag))))))),
-       the targeted messages of one call sorted by target *)
+       the messages behind those heartbeats; targeted messages of one call sorted by target *)
 
 Record case := K {
   k_vn : N; k_rf : N;
@@ -107,6 +120,8 @@ Definition mk_router (R : ring) (m : rmake) : router :=
   | RNew me peers sel => Router R me (combine peers (nseq (N.of_nat (List.length peers)))) sel
   | RCfg rid np sel part en => from_config rid np sel part en R
   end.
+Definition apply_pop (r : router) (p : pop) : router :=
+  match p with PUpd k a => update_peer r k a | PDel k => remove_peer r k end.
 
 Definition tags (ds : list (list N * (N * N))) : list (N * N) := map snd ds.
 Definition canon_table (t : list (N * list (list N * (N * N)))) : list (N * list (N * N)) :=
@@ -119,6 +134,7 @@ Definition canon_msg (m : option N * gmsg) : option N * (N * (N * (N * (list (N 
   match snd m with
   | DeltaBatch src ds ep => (fst m, (0, (src, (0, (tags ds, ep)))))
   | TargetedDelta src tgt ds ep => (fst m, (1, (src, (tgt, (tags ds, ep)))))
+  | Heartbeat src ep => (fst m, (2, (src, (0, ([], ep)))))
   end.
 Definition optN_eqb (a b : option N) : bool :=
   match a, b with Some x, Some y => x =? y | None, None => true | _, _ => false end.
@@ -128,16 +144,27 @@ Definition msg_eqb (a b : option N * (N * (N * (N * (list (N * N) * N))))) : boo
   optN_eqb ta tb && (ka =? kb) && (sa =? sb) && (ga =? gb) && pl_eqb da db && (ea =? eb).
 
 Definition os0 : N -> nat := fun _ => O.
-Definition run_queue (r : router) (batches : list (list (list N * (N * N)))) : list (option N * gmsg) :=
-  g_queue (fold_left (fun g b => queue_deltas fast_kpos (@sort_key _) os0 (advance_epoch g) b)
-                     batches (GState (gr_me r) 0 [] (Some r))).
+Definition run_script (r : router) (router0 : bool) (epoch0 : N) (script : list qev) : list (option N * gmsg) :=
+  let fin :=
+    fold_left (fun st e =>
+                 let '(out, g) := st in
+                 match e with
+                 | QAdv => (out, advance_epoch g)
+                 | QD b => (out, queue_deltas fast_kpos (@sort_key _) os0 g b)
+                 | QB b => (out, queue_deltas_broadcast g b)
+                 | QH => (out, queue_heartbeat g)
+                 | QDrain => let '(q, g') := drain_outbound g in (out ++ q, g')
+                 | QSet => (out, set_router g r)
+                 end)
+              script ([], GState (gr_me r) epoch0 [] (if router0 then Some r else None)) in
+  fst fin ++ g_queue (snd fin).
 
 Definition check_router (R : ring) (c : rcase) : bool :=
-  let r := mk_router R (rc_make c) in
+  let r := fold_left apply_pop (rc_pops c) (mk_router R (rc_make c)) in
   list_eqb pair_eqb (sort_key (gr_peers r)) (rc_peers c) &&
   Bool.eqb (gr_selective r) (rc_selective c) &&
   tbl_eqb (canon_table (route_deltas fast_kpos r os0 (rc_deltas c))) (rc_table c) &&
-  list_eqb msg_eqb (map canon_msg (run_queue r (rc_batches c))) (rc_queue c).
+  list_eqb msg_eqb (map canon_msg (run_script r (rc_router0 c) (rc_epoch0 c) (rc_script c))) (rc_queue c).
 
 Definition gen_batch (keys : list (list N)) (origins : list N) (base n : N) : list (list N * (N * N)) :=
   let nk := N.of_nat (List.length keys) in
@@ -154,23 +181,30 @@ Definition digest_msg (m : option N * gmsg) : option N * (N * (N * (N * (N * (N 
   match snd m with
   | DeltaBatch src ds ep => (fst m, (0, (src, (0, (ep, dg ds)))))
   | TargetedDelta src tgt ds ep => (fst m, (1, (src, (tgt, (ep, dg ds)))))
+  | Heartbeat src ep => (fst m, (2, (src, (0, (ep, (0, (0, 0)))))))
+  end.
+Definition is_hb (m : option N * gmsg) : bool := match snd m with Heartbeat _ _ => true | _ => false end.
+Fixpoint hb_prefix (q : list (option N * gmsg)) : N * list (option N * gmsg) :=
+  match q with
+  | m :: q' => if is_hb m then let '(n, r) := hb_prefix q' in (n + 1, r) else (0, q)
+  | [] => (0, [])
   end.
 Definition dmsg_eqb (a b : option N * (N * (N * (N * (N * (N * (N * N))))))) : bool :=
   let '(ta, (ka, (sa, (ga, (ea, (ca, (ma, wa))))))) := a in
   let '(tb, (kb, (sb, (gb, (eb, (cb, (mb, wb))))))) := b in
   optN_eqb ta tb && (ka =? kb) && (sa =? sb) && (ga =? gb) && (ea =? eb) && (ca =? cb) && (ma =? mb) && (wa =? wb).
 
-Definition run_big (r : router) (keys : list (list N)) (origins : list N) (sizes : list N) : list (option N * gmsg) :=
+Definition run_big (r : router) (keys : list (list N)) (origins : list N) (sizes : list N) (pre : N) : list (option N * gmsg) :=
   g_queue (snd (fold_left (fun bg n =>
                   (fst bg + n,
                    queue_deltas fast_kpos (@sort_key _) os0 (advance_epoch (snd bg))
                                 (gen_batch keys origins (fst bg) n)))
-                sizes (0, GState (gr_me r) 0 [] (Some r)))).
+                sizes (0, GState (gr_me r) 0 (repeat (None, Heartbeat (gr_me r) 0) (N.to_nat pre)) (Some r)))).
 
 Definition check_big (R : ring) (c : bigcase) : bool :=
   let r := mk_router R (bg_make c) in
-  list_eqb dmsg_eqb (map digest_msg (run_big r (map unhex (bg_keys c)) (bg_origins c) (bg_sizes c)))
-           (bg_queue c).
+  let '(hb, rest) := hb_prefix (run_big r (map unhex (bg_keys c)) (bg_origins c) (bg_sizes c) (bg_pre c)) in
+  (hb =? bg_hb c) && list_eqb dmsg_eqb (map digest_msg rest) (bg_queue c).
 
 (* positions of all virtual nodes of every node mentioned are pairwise distinct (the
    hypothesis of the placement theorems), checked on the sorted ring of the universe *)
